@@ -692,6 +692,22 @@ class SortedWriter {
 }
 
 
+function compare_aggregation_keys(a, b) {
+    // Aggregation keys are JSON-encoded arrays. Compare the decoded values element by element, so that groups are emitted in ascending key order (like in the Python version) and not in the order of their JSON text.
+    let key_a = JSON.parse(a);
+    let key_b = JSON.parse(b);
+    if (!Array.isArray(key_a) || !Array.isArray(key_b))
+        return 0;
+    for (let i = 0; i < key_a.length && i < key_b.length; i++) {
+        if (key_a[i] < key_b[i])
+            return -1;
+        if (key_a[i] > key_b[i])
+            return 1;
+    }
+    return key_a.length - key_b.length;
+}
+
+
 class AggregateWriter {
     constructor(subwriter) {
         this.subwriter = subwriter;
@@ -701,7 +717,7 @@ class AggregateWriter {
 
     async finish() {
         var all_keys = Array.from(this.aggregation_keys);
-        all_keys.sort();
+        all_keys.sort(compare_aggregation_keys);
         for (var i = 0; i < all_keys.length; i++) {
             var key = all_keys[i];
             var out_fields = [];
